@@ -3,7 +3,8 @@
 Three kinds of scenario (one Coq `case` type, see coq/CorrC03.v):
   table  a text; the converter class is asked for every offset -1..len+2 / -1..utf16len+2
   hist   a Sofa: constructor argument, then sofaString-setter calls; conversions of the resulting converter
-  doc    a real Cas with 1-3 views with different texts, indexed and referenced-only annotations, text
+  doc    a real Cas with 1-3 views with different texts, indexed and referenced-only annotations of several
+         annotation types next to non-annotation feature structures of like-named types, text
          replacements after annotations exist; to_xmi()/to_json() parsed with the standard library only; both
          documents loaded back with cassis; more text replacements on the loaded CAS and a second save
 The oracle does its own UTF-16 arithmetic (len(s[:i].encode('utf-16-le')) // 2), independent of cassis and of
@@ -29,7 +30,10 @@ RULE = (
     "0-4 setter calls (None and '' included); doc: every span of every string of length <=2 (quick) / <=3 (thorough) "
     "over the alphabet as alternately indexed / referenced-only annotations in a 2-view CAS, plus seeded random "
     "CASes with 1-3 views, text replaced after annotations exist, cross-view references, a holder FS, a save in the "
-    "middle, and text replaced again on the loaded CAS. Non-trivial: the text holds an astral code point and (doc) "
+    "middle, and text replaced again on the loaded CAS; in half of the documents (and every other exhaustive one) the "
+    "annotations are of four annotation types (t.Ann, n.Ann, t.sub.Ann < t.Ann, n.Holder) and the CAS also holds "
+    "non-annotation feature structures of types sharing their short names (t.Holder, m.Ann, m.Holder, m.sub.Ann), "
+    "created before, between and after the annotations. Non-trivial: the text holds an astral code point and (doc) "
     "an annotation begins strictly after it."
 )
 TRUSTED = [
@@ -55,6 +59,13 @@ POOL = ([0x61, 0x62, 0x7A, 0x20, 0x26, 0x3C, 0xE9, 0xDF, 0x20AC, 0x4E2D, 0xD7FF,
          0x0301, 0x0308, 0x20DD, 0xFE0F, 0x200D,
          0x10000, 0x10FFFF, 0x1F600, 0x1F468, 0x1F469, 0x1F3FD, 0x1F1E9, 0x1F1EA, 0x20000, 0x1D11E, 0xFFFF + 2])
 VIEW_NAMES = ["_InitialView", "v1", "v2"]
+# Types of the annotations / of the non-annotation feature structures of a doc scenario (index = field "t" of the op).
+# Index 0 is the type of the first-wave scenarios.  The other names are chosen so that short names collide across
+# packages in both directions (annotation n.Ann / t.sub.Ann vs record m.Ann; annotation n.Holder vs records t.Holder /
+# m.Holder) and namespace prefixes collide too (t.sub / m.sub): the property speaks about *every annotation*, whatever
+# its type is called and whatever else the type system and the CAS contain.
+ANN_TYPES = ["t.Ann", "n.Ann", "t.sub.Ann", "n.Holder"]
+REC_TYPES = ["t.Holder", "m.Ann", "m.Holder", "m.sub.Ann"]
 _TS = {}
 
 
@@ -98,8 +109,9 @@ def _rand_text(rng, n):
     return out
 
 
-def _ts(cassis):
-    key = id(cassis)
+def _ts(cassis, variant=0):
+    """variant 0: the two types of the first-wave scenarios; variant 1: all of ANN_TYPES / REC_TYPES."""
+    key = (id(cassis), variant)
     if key not in _TS:
         from cassis import TypeSystem
         ts = TypeSystem()
@@ -108,8 +120,29 @@ def _ts(cassis):
         ts.create_feature(T, "ref", "uima.tcas.Annotation")
         H = ts.create_type("t.Holder", "uima.cas.TOP")
         ts.create_feature(H, "ref", "uima.tcas.Annotation")
+        if variant:
+            for name in ("m.Ann", "m.Holder", "m.sub.Ann"):          # records: not annotations
+                R = ts.create_type(name, "uima.cas.TOP")
+                ts.create_feature(R, "ref", "uima.tcas.Annotation")
+            for name in ("n.Ann", "n.Holder"):                       # annotation types of their own
+                A = ts.create_type(name, "uima.tcas.Annotation")
+                ts.create_feature(A, "lab", "uima.cas.Integer")
+                ts.create_feature(A, "ref", "uima.tcas.Annotation")
+            ts.create_type("t.sub.Ann", "t.Ann")                     # inherits lab / ref
         _TS[key] = ts
     return _TS[key]
+
+
+def _variant(sc):
+    return 1 if sc.get("ts") else 0
+
+
+def _ann_types(sc):
+    return ANN_TYPES if _variant(sc) else ANN_TYPES[:1]
+
+
+def _rec_types(sc):
+    return REC_TYPES if _variant(sc) else REC_TYPES[:1]
 
 
 # ------------------------------------------------------------------------------------------------ generators
@@ -131,9 +164,14 @@ def _span_doc(text, other, k):
     spans = [(b, e) for b in range(n + 1) for e in range(b, n + 1)]
     ops = [{"op": "text", "v": 0, "s": list(text)}, {"op": "text", "v": 1, "s": list(other)}]
     anns = []
+    typed = k % 2 == 1            # every other string: annotation types rotate, a record is created first
+    if typed:
+        ops.append({"op": "rec", "v": k // 2 % 2, "t": 1 + k // 2 % 3})
     for j, (b, e) in enumerate(spans):
         idx = (j + k) % 2 == 0 or j == 0
         anns.append({"op": "ann", "l": j + 1, "v": 0, "b": b, "e": e, "idx": idx, "ref": None})
+        if typed:
+            anns[-1]["t"] = (j + k // 2) % len(ANN_TYPES)
     # every referenced-only annotation is referenced by the nearest earlier annotation that has no ref yet,
     # or by an indexed annotation of the other view
     extra = []
@@ -146,13 +184,23 @@ def _span_doc(text, other, k):
         else:
             m = min(len(other), 1)
             extra.append({"op": "ann", "l": 100 + j, "v": 1, "b": 0, "e": m, "idx": True, "ref": a["l"]})
-    return {"k": "doc", "nv": 2, "ops": ops + anns + extra, "post": [[], []]}
+    sc = {"k": "doc", "nv": 2, "ops": ops + anns + extra, "post": [[], []]}
+    if typed:
+        sc["ts"] = 1
+    return sc
 
 
 def _gen_doc(rng):
     nv = rng.choice([1, 2, 2, 3])
     ops = []
     cur = [None] * nv
+    full = rng.random() < 0.5                                       # the type system with the colliding names
+
+    def records(p):
+        """feature structures that are not annotations, of types sharing their short name with annotation types"""
+        while full and rng.random() < p:
+            ops.append({"op": "rec", "v": rng.randrange(nv), "t": rng.randrange(len(REC_TYPES))})
+            p *= 0.5
 
     def settext(v, minlen=0):
         r = rng.random()
@@ -185,6 +233,8 @@ def _gen_doc(rng):
             lab[0] += 1
             idx = (not anns) or rng.random() < 0.55
             a = {"op": "ann", "l": lab[0], "v": v, "b": b, "e": e, "idx": idx, "ref": None}
+            if full:
+                a["t"] = rng.randrange(len(ANN_TYPES))
             if not idx and rng.random() < 0.05:
                 a["b"] = a["e"] = None                              # offsets never set
             # a referenced-only annotation needs a referrer that is itself written
@@ -194,13 +244,17 @@ def _gen_doc(rng):
                     rng.choice(free)["ref"] = a["l"]
                 else:
                     ops.append({"op": "holder", "v": rng.randrange(nv), "ref": a["l"]})
+                    if full:
+                        ops[-1]["t"] = rng.randrange(len(REC_TYPES))
             anns.append(a)
             ops.append(a)
 
     def max_end(v):
         return max([a["e"] for a in anns if a["v"] == v and a["e"] is not None] or [0])
 
+    records(0.6)
     add_anns(rng.randint(1, 4))
+    records(0.2)
     if rng.random() < 0.3:
         ops.append({"op": "save"})
     if rng.random() < 0.65:                                         # replace a text after annotations exist
@@ -226,7 +280,10 @@ def _gen_doc(rng):
             else:
                 m = max_end(v)
                 post[v].append(_rand_text(rng, m + rng.randint(0, 5)) if m or rng.random() < 0.9 else [])
-    return {"k": "doc", "nv": nv, "ops": ops, "post": post}
+    sc = {"k": "doc", "nv": nv, "ops": ops, "post": post}
+    if full:
+        sc["ts"] = 1
+    return sc
 
 
 def _gen_hist(rng):
@@ -320,21 +377,24 @@ def _parse_json(data):
     return out
 
 
-def _collect(cas, nv):
-    """label -> [begin, end, covered text as code points or None, sofaID] of every t.Ann reachable in a loaded CAS."""
+def _collect(cas, nv, ann_types=("t.Ann",), rec_types=("t.Holder",)):
+    """label -> [begin, end, covered text as code points or None, sofaID] of every annotation of one of the scenario's
+    annotation types reachable in a loaded CAS."""
     seen = {}
 
     def walk(fs):
-        while fs is not None and fs.type.name == "t.Ann" and fs.lab not in seen:
+        while fs is not None and fs.type.name in ann_types and fs.lab not in seen:
             txt = fs.get_covered_text() if fs.sofa is not None else None
             seen[fs.lab] = [fs.begin, fs.end, _cps(txt), fs.sofa.sofaID if fs.sofa is not None else None]
             fs = fs.ref
     for name in VIEW_NAMES[:nv]:
         view = cas.get_view(name)
-        for fs in view.select("t.Ann"):
-            walk(fs)
-        for h in view.select("t.Holder"):
-            walk(h.ref)
+        for tn in ann_types:
+            for fs in view.select(tn):
+                walk(fs)
+        for tn in rec_types:
+            for h in view.select(tn):
+                walk(h.ref)
     return seen
 
 
@@ -345,9 +405,8 @@ def _xmi_bytes(cas):
 
 def _run_doc(cassis, sc):
     from cassis import Cas, load_cas_from_json, load_cas_from_xmi
-    ts = _ts(cassis)
-    T = ts.get_type("t.Ann")
-    H = ts.get_type("t.Holder")
+    ts = _ts(cassis, _variant(sc))
+    ann_types, rec_types = _ann_types(sc), _rec_types(sc)
     nv = sc["nv"]
     cas = Cas(typesystem=ts)
     views = [cas] + [cas.create_view(n) for n in VIEW_NAMES[1:nv]]
@@ -362,7 +421,7 @@ def _run_doc(cassis, sc):
                 kw["begin"] = op["b"]
             if op["e"] is not None:
                 kw["end"] = op["e"]
-            fs = T(**kw)
+            fs = ts.get_type(ann_types[op.get("t", 0)])(**kw)
             if op["idx"]:
                 views[op["v"]].add(fs)
             else:
@@ -371,9 +430,11 @@ def _run_doc(cassis, sc):
             if op["ref"] is not None:
                 pending.append((fs, op["ref"]))
         elif op["op"] == "holder":
-            h = H()
+            h = ts.get_type(rec_types[op.get("t", 0)])()
             views[op["v"]].add(h)
             pending.append((h, op["ref"]))
+        elif op["op"] == "rec":
+            views[op["v"]].add(ts.get_type(rec_types[op.get("t", 0)])())
         elif op["op"] == "save":
             cas.to_xmi()
             cas.to_json()
@@ -385,7 +446,7 @@ def _run_doc(cassis, sc):
     xw, jw = _parse_xmi(xmi), _parse_json(js)
     cx = load_cas_from_xmi(xmi.decode("utf-8"), typesystem=ts)
     cj = load_cas_from_json(js, typesystem=ts)
-    xl, jl = _collect(cx, nv), _collect(cj, nv)
+    xl, jl = _collect(cx, nv, ann_types, rec_types), _collect(cj, nv, ann_types, rec_types)
     # second stage: replace texts on the loaded CASes and save again
     for c in (cx, cj):
         for v, sets in enumerate(sc["post"]):
@@ -474,7 +535,8 @@ def _oracle_doc(sc, obs):
         if sets:
             post_final[v] = sets[-1]
     for k, a in enumerate(_anns(sc)):
-        who = f"annotation {a['l']} ({'indexed' if a['idx'] else 'referenced-only'}, view {a['v']}, begin={a['b']}, end={a['e']})"
+        who = (f"annotation {a['l']} (type {_ann_types(sc)[a.get('t', 0)]}, {'indexed' if a['idx'] else 'referenced-only'}, "
+               f"view {a['v']}, begin={a['b']}, end={a['e']})")
         if obs["mem"][k] != [a["b"], a["e"]]:
             return f"in-memory offsets: {who} reads {obs['mem'][k]} after saving"
         for key, fmt in (("xw", "XMI"), ("jw", "JSON"), ("xl", "XMI load"), ("jl", "JSON load")):
@@ -636,6 +698,15 @@ def shrink_candidates(sc):
                 if p["op"] == "ann" and p["l"] == o["l"]:
                     p["idx"] = True
             yield c
+    for i, o in enumerate(sc["ops"]):                      # back to the first-wave types, one FS at a time
+        if o.get("t"):
+            c = cp(sc)
+            c["ops"][i]["t"] = 0
+            yield c
+    if sc.get("ts") and not any(o.get("t") for o in sc["ops"]):
+        c = cp(sc)
+        del c["ts"]
+        yield c
     for i, o in enumerate(sc["ops"]):
         if o["op"] == "text" and o["s"]:
             for j in range(len(o["s"])):
@@ -673,6 +744,17 @@ def signature(sc, msg):
     return {"kind": sc.get("k"), "what": (msg or "").split(":")[0]}
 
 
+def _shadowed(sc):
+    """a non-annotation FS is created (smaller xmi:id) before an annotation whose type has the same short name"""
+    seen = set()
+    for o in sc["ops"]:
+        if o["op"] in ("holder", "rec"):
+            seen.add(_rec_types(sc)[o.get("t", 0)].rsplit(".", 1)[-1])
+        elif o["op"] == "ann" and _ann_types(sc)[o.get("t", 0)].rsplit(".", 1)[-1] in seen:
+            return True
+    return False
+
+
 def distribution(scenarios, observations):
     docs = [s for s in scenarios if s["k"] == "doc"]
     anns = [a for s in docs for a in _anns(s)]
@@ -700,6 +782,10 @@ def distribution(scenarios, observations):
         "docs_text_replaced_after_annotations": sum(1 for s in docs if replaced(s)),
         "docs_text_replaced_on_loaded_cas": sum(1 for s in docs if any(s["post"])),
         "docs_with_save_in_the_middle": sum(1 for s in docs if any(o["op"] == "save" for o in s["ops"])),
+        "docs_with_colliding_type_names": sum(1 for s in docs if s.get("ts")),
+        "annotations_by_type": {t: sum(1 for s in docs for a in _anns(s) if _ann_types(s)[a.get("t", 0)] == t)
+                                for t in ANN_TYPES},
+        "docs_record_before_annotation_same_short_name": sum(1 for s in docs if _shadowed(s)),
     }
 
 
